@@ -4,12 +4,20 @@ import json, os
 V = os.path.dirname(os.path.dirname(os.path.abspath(__file__)))
 BASE = json.load(open("/root/.vp/BASELINE.json")) if os.path.exists("/root/.vp/BASELINE.json") else {}
 
-CHECKS = {
- "C12": dict(engine="Ucdao", design="§4 C12",
-   technique="TLA+ spec Ucdao.tla: TLC exhaustive model checking of the ledger invariants and step effects; TLC-simulated behaviours replayed on the real x/ucdao message server; every recorded step validated by TLC against the property layer (trace validation)",
-   text="Exhaustive TLC model checking of the DAO ledger design (all sequences of fund/transfer messages over 3 accounts, 3 denominations, small amounts, including owner=newOwner, refused denominations and the disabled module) proves the ledger invariants and exact step effects on the model; the binding to the code is two-way: TLC-generated behaviours are executed on the real message server and every step of those and of seeded random large-amount scenarios is checked by TLC against the effect functions and invariants of the property layer.",
-   note="Bounded by the constants in specs/Ucdao_*.cfg; messages run through MsgServiceRouter handlers on a cached context (baseapp.runMsgs semantics) rather than full DeliverTx; TLC, the Json community module and the BigNum override are trusted."),
-}
+import importlib, sys
+sys.path.insert(0, os.path.join(V, "lib"))
+
+def load_checks():
+    """every lib/props/cNN.py carries its own MANIFEST_ENTRY"""
+    out = {}
+    for f in sorted(os.listdir(os.path.join(V, "lib", "props"))):
+        if f.startswith("c") and f.endswith(".py"):
+            mod = importlib.import_module("props." + f[:-3])
+            if hasattr(mod, "MANIFEST_ENTRY"):
+                out[f[:-3].upper()] = mod.MANIFEST_ENTRY
+    return out
+
+CHECKS = load_checks()
 
 NOT_YET = {}
 
